@@ -9,7 +9,7 @@ import bisect, json, os, re, shutil, subprocess, time
 
 from . import build, run
 
-WORKDIR = os.path.join(build.WORK, "macrocase")
+WORKDIR = os.path.join(build.WORK, "macrocase") if not build.ALT else os.path.join(os.path.dirname(build.HARNESS), "macrocase")
 MODEL_BIN = os.path.join(build.LEAN, ".lake", "build", "bin", "model")
 
 # Display text of the error kinds: /repo/src/proc-macros/pattern.rs PatError::to_str
@@ -37,7 +37,7 @@ edition = "2018"
 [workspace]
 
 [dependencies]
-pelite = { path = "/repo" }
+pelite = { path = "@REPO@" }
 
 [profile.dev]
 opt-level = 0
@@ -167,13 +167,13 @@ def _env(target):
 def _prepare(crate_dir, name):
     os.makedirs(os.path.join(crate_dir, "src"), exist_ok=True)
     toml = os.path.join(crate_dir, "Cargo.toml")
-    want = CARGO_TOML % name
+    want = (CARGO_TOML % name).replace("@REPO@", build.REPO)
     if not os.path.exists(toml) or open(toml).read() != want:
         with open(toml, "w") as f:
             f.write(want)
     lock = os.path.join(crate_dir, "Cargo.lock")
     if not os.path.exists(lock):
-        shutil.copy("/repo/Cargo.lock", lock)
+        shutil.copy(os.path.join(build.REPO, "Cargo.lock"), lock)
 
 
 def _write_main(crate_dir, prefix, entries, with_main, nonce=0):
